@@ -2016,6 +2016,101 @@ func slowCase(r *hlib.SplitMix64, gen string) row {
 	return rw
 }
 
+// ---------------------------------------------------------------- standard output holds whole lines at any moment
+
+// linesCase: the logger exactly as the packet / generic commands build it in JSON mode (their getLogger, hook
+// command/verif_export_c14.go) on a writer that stands for standard output and records every Write; more than
+// 4 KiB of results are taken while the result channel stays OPEN (the scan is still running).  Judged on the
+// implementation alone: at that moment -- where a SIGKILL, SIGPIPE or an observer of the file may strike --
+// standard output consists of whole lines, each the JSON object of the next result; and every single Write
+// that ever reaches it carries whole lines.
+func linesCase(r *hlib.SplitMix64, gen string) row {
+	which := 0
+	if p := strings.Split(gen, ":"); len(p) == 3 {
+		which, _ = strconv.Atoi(p[1])
+	}
+	name := []string{"packet", "generic"}[which%2]
+	n := 150 + r.Intn(350)
+	rw := row{T: "log", Gen: gen, Class: "whole-lines+" + name + "-cmd", Nontrivial: true}
+	w := &recWriter{}
+	var lg log.Logger
+	var err error
+	if which%2 == 0 {
+		lg, err = command.VerifC14PacketLogger("tcp", w, true)
+	} else {
+		lg, err = command.VerifC14GenericLogger("socks", w, true)
+	}
+	if err != nil {
+		panic(err)
+	}
+	ctx, cancel := context.WithCancel(context.Background())
+	defer cancel()
+	ch := make(chan scan.Result) // unbuffered: a completed send means the logger took the result
+	done := make(chan struct{})
+	go func() { lg.LogResults(ctx, ch); close(done) }()
+	var gs []genRes
+	var want []byte
+	for i := 0; i < n; i++ {
+		x := &tcp.ScanResult{ScanType: tcp.SYNScanType, IP: fmt.Sprintf("10.%d.%d.%d", r.Intn(4), r.Intn(256), r.Intn(256)), Port: uint16(1 + r.Intn(65535))}
+		gs = append(gs, genRes{real: x, desc: resDesc{1, []val{sval(x.ScanType), sval(x.IP), nval(int64(x.Port)), sval(x.Flags)}}})
+		enc, _ := x.MarshalJSON()
+		want = append(append(want, enc...), '\n')
+		select {
+		case ch <- x:
+		case <-time.After(5 * time.Second):
+			rw.Spec = fmt.Sprintf("LogResults stops taking results after %d of %d", i, n)
+			return rw
+		}
+	}
+	// the scan is still running (channel open); give the logger a moment to finish the write of the last result
+	snapshot := func() (stream []byte, torn int) {
+		w.mu.Lock()
+		defer w.mu.Unlock()
+		torn = -1
+		for i, p := range w.writes {
+			stream = append(stream, p...)
+			if torn < 0 && (len(p) == 0 || p[len(p)-1] != '\n') {
+				torn = i
+			}
+		}
+		return
+	}
+	var now []byte
+	torn := -1
+	for dl := time.Now().Add(40 * time.Millisecond); time.Now().Before(dl); time.Sleep(time.Millisecond) {
+		if now, torn = snapshot(); len(now) == len(want) {
+			break
+		}
+	}
+	switch {
+	case len(now) > 0 && now[len(now)-1] != '\n':
+		tail := now[bytes.LastIndexByte(now, '\n')+1:]
+		rw.Spec = fmt.Sprintf("%d results (%d bytes) taken by the %s commands' JSON logger, scan still running: standard output ends with a torn line (%d bytes, no newline): %s",
+			n, len(want), name, len(tail), tail)
+	case !bytes.HasPrefix(want, now):
+		rw.Spec = fmt.Sprintf("%d results taken by the %s commands' JSON logger, scan still running: standard output is not a sequence of the results' lines", n, name)
+	case torn >= 0:
+		rw.Spec = fmt.Sprintf("%d results taken by the %s commands' JSON logger: Write call %d to standard output does not end at a line boundary", n, name, torn+1)
+	}
+	cancel()
+	select {
+	case <-done:
+	case <-time.After(20 * time.Second):
+		rw.Spec = "LogResults does not return after cancellation"
+		return rw
+	}
+	final, torn2 := snapshot()
+	if rw.Spec == "" && torn2 >= 0 {
+		rw.Spec = fmt.Sprintf("%d results taken by the %s commands' JSON logger: Write call %d to standard output does not end at a line boundary", n, name, torn2+1)
+	}
+	rw.Stop = n
+	rw.Writes = []string{hx(final)}
+	for _, g := range gs {
+		rw.Rs = append(rw.Rs, g.desc)
+	}
+	return rw
+}
+
 // ---------------------------------------------------------------- driver
 
 func derive(seed int64, i int) int64 {
@@ -2066,6 +2161,8 @@ func genCase(gen string) row {
 		return burstCase(hlib.NewRand(num(1)), gen)
 	case "slow":
 		return slowCase(hlib.NewRand(num(1)), gen)
+	case "lines": // lines:<0 packet|1 generic>:<seed>
+		return linesCase(hlib.NewRand(num(2)), gen)
 	case "queue": // queue:<capacity>:<seed>
 		return queueCase(hlib.NewRand(num(2)), gen, int(num(1)))
 	}
@@ -2150,6 +2247,10 @@ func main() {
 		k++
 		for i := 0; i < 12; i++ {
 			w.Put(genCase(fmt.Sprintf("slow:%d", derive(*seed, k))))
+			k++
+		}
+		for i := 0; i < 6; i++ {
+			w.Put(genCase(fmt.Sprintf("lines:%d:%d", i%2, derive(*seed, k))))
 			k++
 		}
 	}
